@@ -336,6 +336,10 @@ def gen_scenario(seed: int, stream: str = "shocked", **over) -> dict:
     sc = {"seed": seed, "stream": stream, "table": tb, "model": cfg, "T": T, "events": [],
           "sim": {"register_stocks": False, "save_records": [], "events_mode": "one"}}
     if stream == "eventfree":
+        # step lengths other than 1 (the documentation warns about them, but they are accepted)
+        if rng.random() < 0.3:
+            cfg["dt"] = rng.choice([2, 3, 5])
+            sc["T"] = sc["T"] * cfg["dt"]
         return sc
     # capital of the built model is needed to size impacts
     model = build_model(tb, cfg)
@@ -421,6 +425,11 @@ def gen_scenario(seed: int, stream: str = "shocked", **over) -> dict:
                 for ev in sc["events"]:
                     if ev["type"] != "arbitrary" and kk in ev["impact"]:
                         ev["impact"][kk] *= f
+        # an industry without capital cannot lose any: drop such entries, and events left without impact
+        for ev in sc["events"]:
+            if ev["type"] != "arbitrary":
+                ev["impact"] = {kk: v for kk, v in ev["impact"].items() if v > 0}
+        sc["events"] = [ev for ev in sc["events"] if ev["impact"]]
     return sc
 
 
